@@ -25,6 +25,9 @@ pub struct Worker {
     pub label: String,
     pub last_phase: String,
     pub hello: Value,
+    /// requests sent to this worker *process* since it was spawned (bounded): a failure that
+    /// depends on what earlier cases left behind in the process is reproduced by replaying them
+    pub history: Vec<String>,
 }
 
 impl Worker {
@@ -57,7 +60,7 @@ impl Worker {
                 }
             }
         });
-        let mut w = Worker { child, stdin, rx, stderr_path, spawned: 1, label: label.to_string(), last_phase: String::new(), hello: Value::Null };
+        let mut w = Worker { child, stdin, rx, stderr_path, spawned: 1, label: label.to_string(), last_phase: String::new(), hello: Value::Null, history: Vec::new() };
         // first line: calibration record
         if let Ok(l) = w.rx.recv_timeout(Duration::from_secs(60)) {
             w.hello = serde_json::from_str::<Value>(&l).map(|v| v["hello"].clone()).unwrap_or(Value::Null);
@@ -107,6 +110,9 @@ impl Worker {
 
     fn exec_once(&mut self, req: &Value, timeout: Duration) -> Exec {
         let line = serde_json::to_string(req).unwrap();
+        if self.history.len() < 600 {
+            self.history.push(line.clone());
+        }
         if writeln!(self.stdin, "{line}").is_err() || self.stdin.flush().is_err() {
             // worker already gone (e.g. died after answering the previous case)
             let st = self.child.wait().ok();
